@@ -1,7 +1,7 @@
 #!/usr/bin/env python3
 """Run the registered check of a seeded change's property against a scratch copy of /repo with the change applied
 (VERIF_REPO / VERIF_OUT redirect: /repo and the committed evidence stay untouched).
-usage: seed_batch.py [-j N] <seed_dir> ...      seed_dir = .../Cxx-out/<A|B|C> containing patch.diff
+usage: seed_batch.py [-j N] <seed_dir> ...      seed_dir = .../Cxx-out/<A|B|C> or /verif/seeded/Cxx-A containing patch.diff
 Writes <seed_dir>/check_result.json and prints one line per seed."""
 import concurrent.futures as cf
 import json
@@ -15,7 +15,7 @@ import time
 
 
 def prop_of(seed):
-    m = re.search(r'(C\d\d)-out', seed)
+    m = re.search(r'(C\d\d)-out', seed) or re.search(r'/(C\d\d)-[A-Z]/?$', seed)
     return m.group(1)
 
 
